@@ -122,8 +122,8 @@ struct Init {
                [](const Program &q, const RunResult &r) { if (q.cfg.sim.nprocs < 2 || !r.completed) return false; for (auto &op : q.ops) if (!op.skip && (op.kind == OP_PUT || op.kind == OP_GET) && op.coll) for (auto &a : op.acc) if (!a.active || a.invalid || a.exp_rc != NC_NOERR) return true; return false; });
         {   // C14 mode state machine and error precedence
             Profile p; p.id = "C14"; p.level = "exploration"; p.exhaustive = false;
-            p.technique = "deterministic simulation: exhaustive (depth 3) and seeded (depth 12) histories of mode-changing calls with probe calls from every API family, against a reference mode automaton";
-            p.rule = "histories over the mode-changing alphabet {enddef, redef, begin_indep, end_indep, close+reopen rw, close+reopen ro, abort+reopen} from three starts {created, opened writable, opened read-only}; after every step one probe call from each API family (define, attribute, set_fill, collective and independent get, collective put, nonblocking post+cancel, wait_all, wait, cancel, sync, sync_numrecs, buffer attach/detach, inquiry) is issued by all ranks; seeds map to all 3 x 7^3 = 1029 histories of depth 3 (enumerated completely every run) and to seeded walks of depth 4..12; oracle: return code == reference automaton (documented precedence EPERM, EINDEFINE, ... for put/get and put_att; either applicable code where no precedence is documented), a rejected call changes no byte of the file (image diff around it) and later calls still behave as the automaton says; non-trivial = at least one call was rejected and one accepted";
+            p.technique = "deterministic simulation: exhaustive (depth 3) and seeded (depth 12) histories of mode-changing calls (incl. a failing enddef) with probe calls from every API family, against a reference mode automaton";
+            p.rule = "histories over the mode-changing alphabet {enddef, redef, begin_indep, end_indep, close+reopen rw, close+reopen ro, abort+reopen, define two over-sized variables + enddef (must fail with NC_EVARSIZE and stay in define mode; CDF-1/2)} from five starts {created, opened writable, opened read-only, a file without variables opened writable, the same opened read-only}; after every step one probe call from each API family (define, attribute, set_fill, collective and independent get, collective put, nonblocking post+cancel, wait_all, wait, cancel, sync, sync_numrecs, buffer attach/detach, inquiry) is issued by all ranks; seeds map to all 5 x 8^3 = 2560 histories of depth 3 (enumerated completely every run) and to seeded walks of depth 4..12; oracle: return code == reference automaton (documented precedence EPERM, EINDEFINE, ... for put/get and put_att; either applicable code where no precedence is documented), a rejected call changes no byte of the file (image diff around it) and later calls still behave as the automaton says; non-trivial = at least one call was rejected and one accepted";
             p.gen = [](uint64_t seed, bool th) {
                 Program q; q.seed = seed; q.cfg.profile = "C14"; sim::Rng rng(seed * 2654435761ULL + 17);
                 q.cfg.sim.nprocs = 1 + (int)(seed % 3 == 0 ? 0 : 1 + rng.below(2)); q.cfg.sim.node_of.assign(q.cfg.sim.nprocs, 0); q.cfg.sim.deviate = (seed % 2) ? 0.2 : 0; q.cfg.format = (int[]){1, 2, 5}[seed % 3];
@@ -136,13 +136,17 @@ struct Init {
                   Op v = mk(OP_DEF_VAR); v.name = "v"; v.a[0] = NC_DOUBLE; v.dims = {0}; emit(v); Op w = mk(OP_DEF_VAR); w.name = "r"; w.a[0] = NC_DOUBLE; w.dims = {1, 0}; emit(w); emit(mk(OP_ENDDEF));
                   Op pu = mk(OP_PUT); pu.var = 1; pu.coll = true; for (int r = 0; r < np; r++) { Access a; a.form = F_VARA; a.start = {0, 0}; a.count = {1, 3}; a.memtype = MT_DOUBLE; a.active = (r == 0); if (!a.active) a.count = {0, 0}, a.active = true; pu.acc.push_back(a); } emit(pu);
                   emit(mk(OP_CLOSE)); }
-                uint64_t idx = (seed - 1) % 4000; bool exhaustive = idx < 1029;
-                int start = exhaustive ? (int)(idx / 343) : (int)rng.below(3);
+                // ... and a file without any variable (dimensions and a global attribute only)
+                { Op c = mk(OP_CREATE); c.name = "/sim/z.nc"; c.a[0] = q.cfg.format; emit(c); Op d = mk(OP_DEF_DIM); d.name = "x"; d.a[0] = 3; emit(d); Op t = mk(OP_DEF_DIM); t.name = "t"; t.a[0] = 0; emit(t);
+                  Op a = mk(OP_PUT_ATT); a.var = -1; a.name = "title"; a.att.type = NC_INT; a.att.v = {4, 5}; emit(a); emit(mk(OP_ENDDEF)); emit(mk(OP_CLOSE)); }
+                const int NST = 5, NA = 8; const uint64_t NH = (uint64_t)NST * NA * NA * NA;
+                uint64_t idx = (seed - 1) % (2 * NH); bool exhaustive = idx < NH;
+                int start = exhaustive ? (int)(idx / (NA * NA * NA)) : (int)rng.below(NST);
                 std::vector<int> steps;
-                if (exhaustive) { uint64_t k = idx % 343; for (int i = 0; i < 3; i++) { steps.push_back((int)(k % 7)); k /= 7; } }
-                else { int n = 4 + (int)rng.below(9); for (int i = 0; i < n; i++) steps.push_back((int)rng.below(7)); }
+                if (exhaustive) { uint64_t k = idx % (NA * NA * NA); for (int i = 0; i < 3; i++) { steps.push_back((int)(k % NA)); k /= NA; } }
+                else { int n = 4 + (int)rng.below(9); for (int i = 0; i < n; i++) steps.push_back((int)rng.below(NA)); }
                 if (start == 0) { Op c = mk(OP_CREATE); c.name = "/sim/n.nc"; c.a[0] = q.cfg.format; emit(c); Op d = mk(OP_DEF_DIM); d.name = "x"; d.a[0] = 3; emit(d); Op v = mk(OP_DEF_VAR); v.name = "v"; v.a[0] = NC_DOUBLE; v.dims = {0}; emit(v); }
-                else { Op o = mk(OP_OPEN); o.name = "/sim/m.nc"; o.a[0] = (start == 1); emit(o); }
+                else { Op o = mk(OP_OPEN); o.name = start >= 3 ? "/sim/z.nc" : "/sim/m.nc"; o.a[0] = (start == 1 || start == 3); emit(o); }
                 int pctr = 0;
                 auto probes = [&]() {
                     static const int codes[] = {0, 17, 1, 2, 15, 4, 5, 6, 7, 8, 9, 10, 11, 16, 14};
@@ -158,7 +162,7 @@ struct Init {
                     }
                 };
                 probes();
-                std::string path = start == 0 ? "/sim/n.nc" : "/sim/m.nc";
+                std::string path = start == 0 ? "/sim/n.nc" : start >= 3 ? "/sim/z.nc" : "/sim/m.nc";
                 for (int st : steps) {
                     Op o = mk(OP_BARRIER);
                     switch (st) {
@@ -168,10 +172,11 @@ struct Init {
                     case 3: o = mk(OP_END_INDEP); o.a[4] = 1; emit(o); break;
                     case 4: case 5: emit(mk(OP_CLOSE)); { Op op2 = mk(OP_OPEN); op2.name = path; op2.a[0] = (st == 4); emit(op2); } break;
                     case 6: emit(mk(OP_ABORT)); { Op op2 = mk(OP_OPEN); op2.name = path; op2.a[0] = 1; emit(op2); } break;
+                    case 7: { Op pz = mk(OP_PROBE); pz.a[0] = 20; pz.name = "z" + std::to_string(pctr++); emit(pz); } break;   // a definition enddef must refuse (NC_EVARSIZE): the file stays in define mode
                     }
                     probes();
                 }
-                emit(mk(OP_CLOSE)); { Op cp = mk(OP_CHECKPOINT); emit(cp); }
+                if (!emit(mk(OP_CLOSE))) emit(mk(OP_ABORT)); { Op cp = mk(OP_CHECKPOINT); emit(cp); }
                 gm.cur_ops = nullptr;
                 return q;
             };
